@@ -255,6 +255,8 @@ def run(ctx: Ctx) -> None:
                       key="C06:blocked-path:retry->concurrency_controlled",
                       what="same with reroute_on_concurrency_control: RETRY->CONCURRENCY_CONTROLLED is not an edge, get_invocations_to_run raises"))
     res = ctx.ch_batch("c06", src, conds)
+    from props import C06_sched
+    C06_sched.run(ctx)
     ctx.functions_encoded += [
         "Task.__call__, Task.parallelize -> distribute_batch_calls -> BaseOrchestrator.route_calls",
         "BaseOrchestrator.get_invocations_to_run/get_additional_invocations_to_run/_is_authorize_by_concurrency_control/reroute_invocations/set_invocation_retry/set_invocation_result",
@@ -265,7 +267,7 @@ def run(ctx: Ctx) -> None:
         "history": ("prefix [submit work(a,b,0); poll+start by r1] (thorough: with and without) + " + f"{4 if thorough else 3} free ops over 11 letters "
                     "(submit 4 argument tuples, 2 batch shapes, poll+start by r1 / r2, finish, retry, submit to a second task with the same parameters)"),
         "modes": "DISABLED, TASK, ARGUMENTS, KEYS(k1) x reroute_on_concurrency_control",
-        "runners": "two runners polling sequentially (their simultaneous check-then-act is the SCHED part / known finding)",
+        "runners": "histories: two runners polling sequentially; simultaneous polling/starting: SCHED part (C06_sched)",
     }
     ctx.stubs += ["task body raises a BaseException so that the invocation stays RUNNING until the harness finishes it",
                   "sync history threads", "counter clock", "deterministic uuid4"]
